@@ -938,6 +938,35 @@ class Driver:
         pred.unpredicted = True
         return {"kind": "cmdline", "path": "", "raised": exc, "label": None, "pred": pred, "before": before, "listed": False}
 
+    def _op_load_foreign_secret(self, op):
+        """Load a tree whose value for a secret field was encrypted - with this configuration's key file - by the OTHER
+        provider than the one the field declares (a file written by another tool or an older schema)."""
+        import base64
+
+        cc, cfg = self.cc, self.cfg
+        path = op["path"]
+        nd = self.node(path)
+        if nd is None or nd["kind"] != "field" or nd["family"] != "secure" or "[" in path:
+            return None
+        declared = nd.get("params", {}).get("method", "best")
+        other = "xor" if declared in ("aes", "best") else "aes"
+        try:
+            with cc.KeyFile(self.keyfile) as kf:
+                sv = kf.encrypt(op["text"], method=other)
+            tree = {}
+            cur = tree
+            parts = path.split(".")
+            for seg in parts[:-1]:
+                cur = cur.setdefault(seg, {})
+            cur[parts[-1]] = {"method": sv.method, "ciphertext": base64.b64encode(sv.ciphertext).decode()}
+        except Exception:
+            return None
+        before = self.snapshot()
+        exc = self._run(lambda: cfg.load_tree(tree))
+        pred = Prediction(None, None)
+        pred.unpredicted = True
+        return {"kind": "load-foreign-secret", "path": path, "raised": exc, "label": None, "pred": pred, "before": before, "listed": False}
+
     def _op_cmdline_ns(self, op):
         """cmdline_args_override with a hand-made Namespace: known options, options a (dynamic or fixed) section
         does not declare, unknown top-level destinations.  The effect on the configuration is not predicted."""
